@@ -112,6 +112,16 @@ def build_cases(ctx):
     for a in GRID:
         cases.append(("cond", spell(a) + " ? 1 : 2"))
         cases.append(("cond", "!!" + spell(a)))
+    # StringToNumber through every operator that applies it: spellings around every edge of the StringNumericLiteral grammar
+    spellings = ["-0x10", "+0x10", "-0b1", "+0o7", " -0x1 ", "0x", "0x1g", "0X1F", "0B11", "0O17", "1e", "1e+", "1e+2", "1E-2", ".", "+.5", "-.5e1", "5.e1", "infinity", "INFINITY", "+Infinity", "-Infinity ",
+                 "Infinityx", "1_0", "0b12", "0o8", "\u0661", "1n", "0x1p3", "\t\n 12 \u00a0", "\ufeff7\u2028", "\u180e1", "12px", "--1", "+-1", "1 2", "0.0.1", "1e1000", "-1e-1000", "0x8000000000000000",
+                 "00012", "-00", "+0", "-0.0", "0e0", ".0", "0.", "1,5", "1.5.", "e5", "+", "+ 1", "- 1", "1e5e2", "0x-1", "NaN", "nan", "null", "true", "1/2", "1e-400", "9007199254740993", "123456789012345678901234567890", "\x001"]
+    forms = ["+%s", "-%s", "~%s", "%s * 1", "%s - 0", "%s / 1", "%s %% 7", "%s ** 1", "%s | 0", "%s >>> 0", "%s << 1", "%s == 0", "%s == 16", "%s < 1", "%s >= -16", "1 * %s", "0 - %s", "isNaN(%s)",
+             "(function () { var v = %s; v++; return v; })()", "(function () { var o = {p: %s}; o.p -= 1; return o.p; })()", "[%s] * 1", "%s == false", "Number(%s)"]
+    for sp in spellings:
+        lit = '"' + sp + '"'
+        for f in forms:
+            cases.append(("string-to-number", f % lit))
     # representation metamorphic partner cases are generated on the fly in main()
     # compound assignment: pairwise sample of operand pairs for every target, full for 'global'
     rng = random.Random(1234)  # fixed: deterministic cells
